@@ -63,14 +63,14 @@ CHECKS = {
    technique="implementation-shaped TLA+ model of the three-message handshake with a Dolev-Yao attacker (Handshake.tla), safety + liveness under fairness model checked; every attacker schedule replayed on two real AuthenticationBuiltin plugins; byte-level sweep of all fields; TLC trace validation",
    text="TLC explores every attacker schedule with <=3 (4) attacker deliveries (alter, forge, replay from an earlier session, reflect, reorder) and checks: completion only through clean copies, equal secrets, no secret before completion, genuine handshake completes afterwards (modulo the three named deviations); all 1679 behaviours plus a sweep flipping every byte of every field of the three messages, foreign-CA / insider / unbound-GUID certificates and random schedules run on two real plugins with fixture identities, get_shared_secret read after every call, validated by Trace_Handshake.tla.",
    note="EC identities / ECDH only; certificate expiry and revocation not exercised; known findings S7, S13, S14"),
- "C11": dict(level="exploration", engine="tlc+disc-driver", design="§4 C11",
-   technique="abstract discovery state in TLA+ (DiscoveryAbs.tla) with named deviation S8; discovery event sequences applied to a real DiscoveryDB + real DPEventLoop handlers + real local Writer/Reader; TLC trace validation of matched sets and status events (Trace_Discovery.tla)",
-   text="Random and systematic sequences of SPDP announce / liveness / clean-up / participant dispose and SEDP announce / re-announce / dispose over two remote participants and six remote endpoints (compatible, incompatible, other topic) are applied the way discovery.rs applies them; after every event the matched sets of the real local Writer and Reader, their PublicationMatched / SubscriptionMatched / IncompatibleQos events (current, change, total) and the DiscoveryDB tables are judged: matched = announced, compatible, same topic; one event per set change with the right current count; total never decreases; incompatible -> event and no match; a lost participant's endpoints leave together.",
-   note="glue of discovery.rs mirrored in the rig (real glue exercised by the system driver); known finding S8; implementation-shaped model (Discovery.tla) for exhaustive schedules not built yet"),
- "C12": dict(level="exploration", engine="tlc+disc-driver", design="§4 C12",
-   technique="lease rule in TLA+ (DiscoveryAbs.tla: lost iff no sign for longer than the advertised lease); real DiscoveryDB driven with a virtual clock; TLC trace validation",
-   text="With the virtual clock (cfg-gated offset added to Instant::now() in DiscoveryDB) leases of 0.5 s, 1.5 s, 3.5 s, 10.5 s, 100.5 s and 'none announced' are exercised against ticks of 1 to 101 s, liveness signs, clean-up ticks, explicit disposes and reappearance; TLC judges every clean-up result (live participant never dropped, silent one dropped), immediate removal on dispose, endpoints parked on time-out and known again on reappearance.",
-   note="no event on the exact lease boundary (leases end in .5 s, ticks are whole seconds)"),
+ "C11": dict(level="model_checking", engine="tlc+disc-driver", design="§0.2, §4 C11",
+   technique="TLC model checking of Discovery.tla (implementation-shaped model of DiscoveryDB + event-loop matching + status counters, judged by the observers of DiscoveryAbs.tla) + replay of TLC behaviours on the real DiscoveryDB / DPEventLoop / Writer / Reader + TLC trace validation (Trace_Discovery.tla)",
+   text="TLC explores every sequence (within the bound) of SPDP announcement, liveliness assertion, clock step, clean-up, participant dispose, SEDP announcement and SEDP dispose over two participants and up to seven remote endpoints (compatible, incompatible, other topic, two writers / two readers of one participant, differing but compatible QoS values); after every event the matched sets, the status events (current / total counts, incompatible-QoS events) and the tables the model lets the outside see are judged by DiscoveryAbs: matched = announced and compatible and on the topic, one event per change with the right current count, totals never decreasing, all endpoints of a lost participant unmatched together. Every dumped behaviour is replayed on the real objects through DiscRig (DB update, then the event-loop handler, as discovery.rs does), 800 random sequences of 40 events are added, and every real execution is validated by TLC.",
+   note="bounded constants (spec/MC_Discovery_*.cfg); remote endpoints keep the QoS they were announced with and are announced by participants that are present; the glue of discovery.rs itself is exercised by the system driver (C07)"),
+ "C12": dict(level="model_checking", engine="tlc+disc-driver", design="§0.2, §4 C12",
+   technique="TLC model checking of Discovery.tla (life signs, leases, clean-up, attic) against the lease rule of DiscoveryAbs.tla + replay on the real DiscoveryDB with a virtual clock + TLC trace validation (Trace_Discovery.tla)",
+   text="The model carries the virtual clock, the stored life sign and the lease of every participant; TLC explores all sequences of announcement (leases 1100 ms, 2500 ms, none), liveliness assertion, clock steps of 400 ms / 1000 ms (thorough: 61 s), clean-up, dispose and reappearance within the bound and checks: a participant is declared lost exactly when no sign arrived for longer than its lease, never while signs keep arriving, dispose removes it at once, endpoints of a timed-out participant are parked and known (and matched) again when it reappears, endpoints of a lost participant are unmatched. The behaviours are replayed on the real DiscoveryDB whose Instant::now() is shifted by the cfg-gated virtual clock; random runs add leases from 550 ms to 100 s and steps from 300 ms to 101 s.",
+   note="no event on the exact lease boundary (real time keeps running under the virtual offset: model leases 1100 / 2500 ms with steps of 400 / 1000 ms, random leases end in 50 ms with steps that are multiples of 100 ms)"),
  "C14": dict(level="exploration", engine="tlc+wire-driver", design="§4 C14",
    technique="framing model RtpsWire.tla (Decode(Encode(m)) = Canon(m) over submessage shapes) and NumberSet.tla (bitmap law) checked with TLC; shapes instantiated with the real serialisers, judged by an independent codec and by TLC trace validation; corpus of captured real datagrams round-tripped",
    text="TLC checks the framing law over 200 submessage shapes x both byte orders (21 602 messages quick) and the number-set law on 21 189 cases; every shape is built with the crate's structs/MessageBuilder with seeded values, serialised LE/BE, and checked: header length and flags agree with the body (independent codec harness/src/wire.rs), parse back equal, re-serialise to identical bytes; plus every datagram the real Reader/Writer emitted in the reader/writer/link drivers.",
